@@ -6,6 +6,7 @@ import (
 	"fmt"
 	"os"
 	"runtime"
+	"sort"
 	"strconv"
 	"strings"
 
@@ -73,6 +74,12 @@ func main() {
 		exit(engine.Replay(p, *replay))
 	}
 
+	if *prop == "list" {
+		ids := engine.IDs()
+		sort.Strings(ids)
+		fmt.Println(strings.Join(ids, " "))
+		exit(0)
+	}
 	p := engine.Lookup(*prop)
 	if p == nil {
 		fmt.Printf("HARNESS-FAULT unknown property %q (have %v)\n", *prop, engine.IDs())
